@@ -348,3 +348,100 @@ def report_failing_input(ck, flex, scratch, case, sc, w, note, classify=None):
     ck.violation(key, "scanner's tokens differ from the documented tokenisation (sc=%d, input=%s)" % (sc, bytes(w3).hex()),
                  replay_record(c2, {'start_condition': sc, 'input_hex': bytes(w3).hex(), 'observed_tokens': observed,
                                     'note': note}))
+
+
+# ------------------------------------------------------------------ evidence helpers
+PROOF_TB = ["Coq 8.16.1 kernel (coqc, vm_compute; no native_compute)", "extraction (ExtrOcamlBasic only) + ocamlfind ocamlopt",
+            "extract/driver.ml (S-expression reader, untrusted relation search)",
+            "harness: pattern printer, table reader, back-end templates, shrinkers", "gcc/g++, m4"]
+
+
+def summarize(cases, results, stats, nob, ngood, details, props_file, rule, extra=None):
+    ls_ok = sum(1 for r in results for l in r.get('lockstep', []) if " OK " in l)
+    ls_all = sum(len(r.get('lockstep', [])) for r in results)
+    pairs = 0
+    for r in results:
+        for l in r.get('lockstep', []):
+            if "pairs=" in l:
+                pairs += int(l.rsplit("pairs=", 1)[1])
+    streams = sum(len(r.get('streams', [])) for r in results)
+    distinct = set()
+    for c, r in zip(cases, results):
+        rules_seen = set(t[0] for st in r.get('streams', []) for t in st['real'])
+        if (r.get('lastdfa') or 0) >= 3 and len(rules_seen) >= 2:
+            distinct.add(prog_key(c))
+    sizes = {}
+    for r in results:
+        b = (r.get('lastdfa') or 0)
+        bucket = "<10" if b < 10 else "<50" if b < 50 else "<200" if b < 200 else "<1000" if b < 1000 else ">=1000"
+        sizes[bucket] = sizes.get(bucket, 0) + 1
+    optsh = {}
+    for c in cases:
+        k = "%s %s" % (c.get('backend', 'nr'), " ".join(c['flex_opts']))
+        optsh[k] = optsh.get(k, 0) + 1
+    cov = {
+        "obligations": nob, "discharged": ngood,
+        "checker_cmd": "make -C coq %s && coqc %s (Print Assumptions); extracted proved checkers run on what the rebuilt flex emitted" % (
+            props_file.replace(".v", ".vo"), props_file),
+        "trusted_base": PROOF_TB, "theorems": details,
+        "evaluations": len(cases), "distinct_nontrivial": len(distinct), "rule": rule,
+        "lockstep_queries": ls_all, "lockstep_ok": ls_ok, "lockstep_pairs_checked": pairs,
+        "lockstep_inconclusive": stats.get('inconclusive', 0),
+        "token_streams_judged": streams,
+        "refusals_documented": sum(1 for r in results if r.get('refusal_documented')),
+        "excluded_dangerous_trailing_context": sum(1 for r in results if r.get('dangerous')),
+        "dfa_size_histogram": sizes, "option_histogram": optsh,
+        "problem_kinds": stats.get('problem_kinds', {}),
+    }
+    if cases:
+        s = cases[0]
+        cov["samples"] = [{"rules": s['text'].split("%%")[1].strip().splitlines()[:6], "flex_opts": s['flex_opts'],
+                           "backend": s.get('backend', 'nr'),
+                           "input_hex": bytes(s['inputs'][0]).hex()[:80] if s.get('inputs') else "",
+                           "lockstep": results[0].get('lockstep', [])[:2]}]
+    else:
+        cov["samples"] = ["(no case)"]
+    if extra:
+        cov.update(extra)
+    return cov
+
+
+def standard_main(prop, tier, props_file, build_cases, rule, assumptions, worker=None, post=None):
+    """The common shape of a tokenisation check."""
+    ck = Check(prop, tier)
+    rng = Rng(ck.seed).fork(prop)
+    if not ensure_built():
+        ck.violation("setup", "the Rocq development or its extraction no longer builds", {"theorem": "whole development"}, no_input=True)
+        return ck.finish({"obligations": 1, "discharged": 0, "checker_cmd": "bin/setup", "trusted_base": []})
+    nob, ngood, details = obligations(ck, props_file)
+    stats = {}
+    cases, results = [], []
+    extra = {}
+    with Scratch(prop.lower()) as scratch:
+        try:
+            flex = build_flex(scratch)
+        except BuildError as ex:
+            sys.stderr.write(str(ex) + "\n")
+            print("ERROR: /repo does not build; nothing can be checked")
+            return 2
+        cases = build_cases(rng, tier)
+        if worker:
+            global _FLEX, _ROOT
+            _FLEX = flex
+            _ROOT = scratch.sub("cases")
+            results = parallel_map(worker, cases)
+        else:
+            results = run_cases(flex, scratch, cases)
+        judge(ck, flex, scratch, cases, results, stats)
+        if post:
+            extra = post(ck, flex, scratch, cases, results, stats) or {}
+    cov = summarize(cases, results, stats, nob, ngood, details, props_file, rule, extra)
+    return ck.finish(cov, assumptions=assumptions)
+
+
+def std_replay(path):
+    with open(path) as f:
+        rec = json.load(f)
+    print(json.dumps({k: rec.get(k) for k in rec if k != 'spec'}, indent=1, default=str))
+    print(rec.get('spec', ''))
+    return 0
